@@ -38,6 +38,9 @@ func VerifC06_BackToBack() {
 		return
 	}
 	verifReach("C06/b2b/started")
+	if verifTier() > 0 {
+		verifSchedBound(2) // thorough: every pair of preemptions
+	}
 	r1 := verifExec(sess.client, "r1", 1)
 	verifCheckResult("C06/b2b/first", r1, 1)
 	r2 := verifExec(sess.client, "r2", 5)
@@ -58,6 +61,9 @@ func VerifC06_Overlapping() {
 		return
 	}
 	verifReach("C06/overlap/started")
+	if verifTier() > 0 {
+		verifSchedBound(2) // thorough: every pair of preemptions
+	}
 	verifSharedBegin(sess.client)
 	var wg sync.WaitGroup
 	var r1, r2 ExecutionResult
